@@ -37,20 +37,20 @@ def _update_calls(fi):
     return [c for c in lib.method_calls(fi, "update_parameter_expression") if lib.chain_text(c.func.value) == "self"]
 
 
-def r1(ctx) -> None:
+def r1(ctx, rule: str = "C12-R1") -> None:
     repo = ctx.repo
     init = ctx.fn(PS, "Parameters.__init__")
     cfg = lib.cfg(init)
     ups = _update_calls(init)
     st = [lib.stmt_of(c) for c in ups]
     ok = bool(st) and not cfg.exists_path(cfg.entry, cfg.exit, avoid=st, exc=False)
-    ctx.ob("C12-R1", "Parameters.__init__/refresh", ok, init, st[0] if st else init.node,
+    ctx.ob(rule, "Parameters.__init__/refresh", ok, init, st[0] if st else init.node,
            "construction (also reached by copy, from_list, from_dict, from_dataframe, loading) ends with a refresh of "
            "the expression parameters on every path", construct=lib.short(st[0]) if st else "def __init__")
     if st:
         for attr in ("self._parameters", "self._evaluator"):
             ss = lib.attr_stores(init, attr)
-            ctx.ob("C12-R1", f"Parameters.__init__/{attr}-before-refresh", bool(ss) and all(cfg.dominates(s, st[0]) for _, s in ss), init,
+            ctx.ob(rule, f"Parameters.__init__/{attr}-before-refresh", bool(ss) and all(cfg.dominates(s, st[0]) for _, s in ss), init,
                    ss[0][1] if ss else init.node, f"{attr} is set before the first refresh")
     # every classmethod constructor goes through cls(...)/Parameters(...)
     cls = repo.cls(PS, "Parameters")
@@ -61,22 +61,22 @@ def r1(ctx) -> None:
             for r in rets:
                 v = r.value
                 ok = isinstance(v, ast.Call) and (norm(v.func) in ("cls", "Parameters") or norm(v.func).startswith("cls."))
-                ctx.ob("C12-R1", f"Parameters.{m.name}/constructs-through-init", ok, m, r,
+                ctx.ob(rule, f"Parameters.{m.name}/constructs-through-init", ok, m, r,
                        "alternative constructors must build the container through __init__ (which refreshes)")
     sf = ctx.fn(PS, "Parameters.set_from_label_and_value_arrays")
     cfg = lib.cfg(sf)
     ups = [lib.stmt_of(c) for c in _update_calls(sf)]
     setters = [lib.stmt_of(c) for c in lib.method_calls(sf, "set_value_from_optimization")]
-    ctx.sites("C12-R1", "value setters in set_from_label_and_value_arrays", len(setters), 1)
+    ctx.sites(rule, "value setters in set_from_label_and_value_arrays", len(setters), 1)
     for s in setters:
         ok = bool(ups) and not cfg.exists_path(s, cfg.exit, avoid=ups, exc=False)
-        ctx.ob("C12-R1", "set_from_label_and_value_arrays/refresh-after-update", ok, sf, s,
+        ctx.ob(rule, "set_from_label_and_value_arrays/refresh-after-update", ok, sf, s,
                "every path from a value update to the return passes update_parameter_expression()")
     sh = ctx.fn(PS, "Parameters.set_from_history")
     cs = [c for c in lib.method_calls(sh, "set_from_label_and_value_arrays") if lib.chain_text(c.func.value) == "self"]
     cfgh = lib.cfg(sh)
     ok = bool(cs) and not cfgh.exists_path(cfgh.entry, cfgh.exit, avoid=[lib.stmt_of(c) for c in cs] + [lib.stmt_of(c) for c in _update_calls(sh)], exc=False)
-    ctx.ob("C12-R1", "set_from_history/delegates", ok, sh, cs[0] if cs else sh.node,
+    ctx.ob(rule, "set_from_history/delegates", ok, sh, cs[0] if cs else sh.node,
            "set_from_history updates through set_from_label_and_value_arrays (which refreshes)",
            construct=lib.short(cs[0], 80) if cs else "def set_from_history")
     ge = ctx.fn(PS, "Parameters.get_label_value_and_bounds_arrays")
@@ -84,9 +84,9 @@ def r1(ctx) -> None:
     ups = [lib.stmt_of(c) for c in _update_calls(ge)]
     reads = [lib.stmt_of(c) for c in lib.method_calls(ge, "get_value_and_bounds_for_optimization")]
     reads += [lib.stmt_of(n) for n in lib.nodes(ge, ast.Attribute) if n.attr == "value" and isinstance(n.ctx, ast.Load)]
-    ctx.sites("C12-R1", "value reads in get_label_value_and_bounds_arrays", len(reads), 1)
+    ctx.sites(rule, "value reads in get_label_value_and_bounds_arrays", len(reads), 1)
     for s in reads:
-        ctx.ob("C12-R1", "get_label_value_and_bounds_arrays/refresh-first", bool(ups) and any(cfgg.dominates(u, s) for u in ups), ge, s,
+        ctx.ob(rule, "get_label_value_and_bounds_arrays/refresh-first", bool(ups) and any(cfgg.dominates(u, s) for u in ups), ge, s,
                "the export of the arrays is dominated by a refresh of the expression parameters")
     # who stores Parameter.value
     allowed = {("glotaran/parameter/parameters.py", "Parameters.update_parameter_expression"),
@@ -105,14 +105,14 @@ def r1(ctx) -> None:
                 if not is_param:
                     continue
                 n += 1
-                ctx.ob("C12-R1", f"package/value-store:{fi.short}", (fi.rel, fi.short) in allowed, fi, s,
+                ctx.ob(rule, f"package/value-store:{fi.short}", (fi.rel, fi.short) in allowed, fi, s,
                        "Parameter.value is stored only by the expression refresh and by set_value_from_optimization "
                        "(whose callers refresh afterwards)")
-    ctx.sites("C12-R1", "Parameter.value stores", n, 2)
+    ctx.sites(rule, "Parameter.value stores", n, 2)
     # callers of set_value_from_optimization
     for fi in repo.functions.values():
         for c in lib.method_calls(fi, "set_value_from_optimization"):
-            ctx.ob("C12-R1", f"package/setter-caller:{fi.short}", (fi.rel, fi.short) == (PS, "Parameters.set_from_label_and_value_arrays"),
+            ctx.ob(rule, f"package/setter-caller:{fi.short}", (fi.rel, fi.short) == (PS, "Parameters.set_from_label_and_value_arrays"),
                    fi, lib.stmt_of(c), "set_value_from_optimization is only called from set_from_label_and_value_arrays")
 
 
@@ -161,6 +161,15 @@ def r2(ctx, rule: str = "C12-R2") -> None:
             if bound_ok and not (sa is not None and (sa in lens or (sa[0] == "call" and sa[1] == "max"))):
                 bound_ok = False
                 trace.append("bound is not len(X) / max(len(X), c)")
+            if bound_ok and sa is not None and sa[0] == "call" and sa[1] == "max":
+                # max(len(X), c): one argument is exactly len(X), the others are constants (len(X) - 1 is one pass short)
+                from glint.terms import Poly as _P
+                args = [_P(dict(k)) for k in sa[2]]
+                exact = [a for a in args if a.single_atom() in lens]
+                consts = [a for a in args if a.const_value() is not None]
+                if not (len(exact) >= 1 and len(exact) + len(consts) == len(args)):
+                    bound_ok = False
+                    trace.append("an argument of max() is neither len(X) nor a constant")
         elif isinstance(outer, ast.While):
             bound_ok = True  # flag controlled; checked below
         ctx.ob(rule, "update_parameter_expression/pass-bound", bound_ok, up, outer,
